@@ -409,7 +409,8 @@ impl<'a> ExprGen<'a> {
                             }
                         }
                         _ => {
-                            let k = self.rng.pick(&MEMBER_NAMES).to_string();
+                            // (own keys only: an own `toString` / `valueOf` would change how the object converts)
+                            let k = self.rng.pick(&MEMBER_NAMES[..6]).to_string();
                             if !used.contains(&k) {
                                 used.push(k.clone());
                                 fs.push(GO::Named(k, self.gen(depth - 1)));
